@@ -1,10 +1,198 @@
 /-
-  C07 (more) — un-binarizing a whole deterministic grammar
+  C07 (more) — un-binarizing a whole deterministic grammar:
+  "Without Markovization the binarization nonterminals are unique and each has a single fan-out,
+   so un-binarizing recovers exactly the original rules."
 -/
 import TT.Spec.Grammar
 import TT.Lemmas.GramBin
 import TT.Lemmas.Unbin
 namespace TT.Props.C07More
-open TT TT.Spec
+open TT TT.Spec TT.Lemmas.GramBin TT.Lemmas.Unbin
+
+/-- hypotheses on the input grammar: every rule well formed (as in `chain_composes`), no original symbol looks
+    like a binarization symbol, and (after the reordering) no two entries coincide -/
+def GrammarOK (r : Reordering) (g : Grammar) : Prop :=
+  (∀ e ∈ g.rules, (wfLin e.2.1 ((fanOut e.2.1).drop 1) = true ∧ (fanOut e.2.1).length = e.1.length) ∧
+      ∀ x ∈ e.1, isBinSym x = false) ∧
+  (g.rules.map fun (f, l, _) => reorder r f l).Nodup
+
+/-- what the proof really uses (weaker than `GrammarOK`): no original symbol looks like a binarization symbol,
+    and the rules that do get binarized (more than two right-hand-side elements) are ordered, non-deleting,
+    non-erasing over their right-hand side (`CWF`: `wfLin` with the fan-out of element `i` read off as its number
+    of variables).  Nothing is asked of the rules of rank <= 2, and entries may coincide after the reordering. -/
+def GrammarOKmin (g : Grammar) : Prop :=
+  ∀ e ∈ g.rules, (∀ x ∈ e.1, isBinSym x = false) ∧ (3 < e.1.length → CWF e.1 e.2.1)
+
+instance (r : Reordering) (g : Grammar) : Decidable (GrammarOK r g) := by unfold GrammarOK; infer_instance
+instance (f : Func) (l : Lin) : Decidable (CWF f l) := by unfold CWF; infer_instance
+instance (g : Grammar) : Decidable (GrammarOKmin g) := by unfold GrammarOKmin; infer_instance
+
+theorem GrammarOK_min (r : Reordering) (g : Grammar) (h : GrammarOK r g) : GrammarOKmin g := by
+  intro e he
+  obtain ⟨⟨hw, hl⟩, hnb⟩ := h.1 e he
+  exact ⟨hnb, fun _ => CWF_of_wf e.1 e.2.1 hw hl⟩
+
+/-- the hypotheses carry over to the reordered rules -/
+theorem ROK_of_min (r : Reordering) (g : Grammar) (h : GrammarOKmin g) : ROK (reordered r g) := by
+  intro e' he'
+  unfold reordered at he'
+  obtain ⟨e, he, rfl⟩ := List.mem_map.1 he'
+  obtain ⟨hnb, hw⟩ := h e he
+  refine ⟨NBF_reorder r e.1 e.2.1 hnb, ?_⟩
+  intro h3
+  simp only at h3 ⊢
+  have hne : e.1 ≠ [] := by
+    intro e0
+    rw [e0] at h3
+    cases r <;> simp [reorder, reorderingOptimal, pickOrder] at h3
+  rw [reorder_length r e.1 e.2.1 hne] at h3
+  exact CWF_reorder r e.1 e.2.1 hne (hw (by omega))
+
+/-- main theorem under the weaker hypotheses -/
+theorem unbinOK_binarize_min (r : Reordering) (g : Grammar) (h : GrammarOKmin g) :
+    unbinOK r g (binarizeGrammar r none g) = true :=
+  unbinOK_build r g (ROK_of_min r g h)
+
+/-- C07, whole grammar, deterministic labels: un-binarizing `binarizeGrammar r none g` gives back exactly the rules
+    of `g` (after the reordering `r`), with their counts -/
+theorem unbinOK_binarize (r : Reordering) (g : Grammar) (h : GrammarOK r g) :
+    unbinOK r g (binarizeGrammar r none g) = true :=
+  unbinOK_binarize_min r g (GrammarOK_min r g h)
+
+/-! ### stepping stones -/
+
+theorem NB_of_min (r : Reordering) (g : Grammar) (h : GrammarOKmin g) : NB (reordered r g) :=
+  ROK_NB _ (ROK_of_min r g h)
+
+/-- binarization symbols are unique: each is defined by at most one rule of the result -/
+theorem binSyms_unique (r : Reordering) (g : Grammar) (h : GrammarOK r g) (x : Str) (hx : isBinSym x = true) :
+    ((binarizeGrammar r none g).rules.filter fun (f, _, _) => f.head? = some x).length ≤ 1 := by
+  rw [binarizeGrammar_build]
+  exact binSyms_unique' (reordered r g) (NB_of_min r g (GrammarOK_min r g h)) x hx
+
+/-- ... and each has a single fan-out: two rules of the result with the same binarization symbol on the left are
+    the same rule, so their linearizations have the same number of arguments -/
+theorem binSyms_single_fanout (r : Reordering) (g : Grammar) (h : GrammarOK r g) (x : Str) (hx : isBinSym x = true)
+    (e1 e2 : Func × Lin × Nat) (h1 : e1 ∈ (binarizeGrammar r none g).rules) (h2 : e2 ∈ (binarizeGrammar r none g).rules)
+    (x1 : e1.1.head? = some x) (x2 : e2.1.head? = some x) :
+    e1.1 = e2.1 ∧ e1.2.1 = e2.2.1 ∧ e1.2.1.length = e2.2.1.length := by
+  rw [binarizeGrammar_build] at h1 h2
+  have := binDef_unique (reordered r g) (NB_of_min r g (GrammarOK_min r g h)) x hx e1 e2 h1 h2 x1 x2
+  simp only [keyOf, Prod.mk.injEq] at this
+  exact ⟨this.1, this.2, by rw [this.2]⟩
+
+/-- the result never lists one (function, linearization) pair twice -/
+theorem result_rules_nodup (r : Reordering) (g : Grammar) :
+    ((binarizeGrammar r none g).rules.map fun e => (e.1, e.2.1)).Nodup := by
+  rw [binarizeGrammar_build]
+  exact rules_keys_nodup _ (GN_build _ [] GN_nil)
+
+/-- one rule binarized on its own (`chainOf`, labels from 1) is the chain `chainR` with label counter 0 -/
+theorem chainOf_is_chain (f : Func) (l : Lin) (hf : ∀ x ∈ f, isBinSym x = false) (h3 : 3 < f.length) :
+    chainOf none f l [] = chainR f (f.length - 3) 1 (f[0]?.getD []) l 0 :=
+  chainOf_eq f l hf (by omega)
+
+/-- following the chain from the top rule of a rule of rank >= 3 gives exactly `chainOf none f l []` up to the label
+    numbers: for the rule `(f, l, c)` of `g`, reordered to `(f', l')`, there is a label offset `s` such that
+    the result contains the rule `f'[0] -> f'[1] @(s+1)` with linearization `topLin l'`, following the chain
+    from it gives `chainR f' _ 1 f'[0] l' s` (the same chain as `chainOf none f' l' []`, which is the one with
+    `s = 0`: same linearizations, same symbols except that label `@(j)` reads `@(s+j)`), and composing that chain
+    gives `(f', l')` back -/
+theorem followChain_top (r : Reordering) (g : Grammar) (h : GrammarOK r g) (f : Func) (l : Lin) (c : Nat)
+    (he : (f, l, c) ∈ g.rules) (h3 : 3 < f.length) :
+    let f' := (reorder r f l).1
+    let l' := (reorder r f l).2
+    let res := binarizeGrammar r none g
+    ∃ s : Nat,
+      (∃ c', ([f'[0]?.getD [], f'[1]?.getD [], uniqueLabel (s + 1)], topLin l', c') ∈ res.rules) ∧
+      followChain res res.rules.length [f'[0]?.getD [], f'[1]?.getD [], uniqueLabel (s + 1)] (topLin l') =
+        chainR f' (f'.length - 3) 1 (f'[0]?.getD []) l' s ∧
+      chainOf none f' l' [] = chainR f' (f'.length - 3) 1 (f'[0]?.getD []) l' 0 ∧
+      (chainR f' (f'.length - 3) 1 (f'[0]?.getD []) l' s).map (·.2) = (chainOf none f' l' []).map (·.2) ∧
+      unbinChain (chainR f' (f'.length - 3) 1 (f'[0]?.getD []) l' s) = some (f', l') := by
+  intro f' l' res
+  have hmin := GrammarOK_min r g h
+  have hrok := ROK_of_min r g hmin
+  have hnb := ROK_NB _ hrok
+  have hmem : (f', l', c) ∈ reordered r g := List.mem_map.2 ⟨(f, l, c), he, rfl⟩
+  obtain ⟨R1, R2, hR⟩ := List.append_of_mem hmem
+  have hne : f ≠ [] := by intro e0; rw [e0] at h3; simp at h3
+  have hlen : f'.length = f.length := reorder_length r f l hne
+  have h3' : ¬ f'.length ≤ 3 := by omega
+  obtain ⟨hnbf, hw⟩ := hrok _ hmem
+  have hfc := followChain_long (reordered r g) R1 R2 (f', l', c) hR hnb h3'
+  obtain ⟨k, hk⟩ : ∃ k, f'.length - 3 = k + 1 := ⟨f'.length - 4, by omega⟩
+  have hco := chainOf_eq f' l' hnbf h3'
+  refine ⟨total R1, ?_, ?_, hco, ?_, ?_⟩
+  · show hasKey (binarizeGrammar r none g).rules _ _
+    rw [binarizeGrammar_build, hasKey_build]
+    left
+    refine ⟨c, ?_⟩
+    rw [hR, allAdds_append]
+    apply List.mem_append_right
+    simp only [allAdds, Nat.zero_add]
+    apply List.mem_append_left
+    unfold ruleAdds
+    rw [if_neg h3']
+    rw [hk]
+    exact List.mem_map.2 ⟨_, List.mem_cons_self, rfl⟩
+  · show followChain (binarizeGrammar r none g) (binarizeGrammar r none g).rules.length _ _ = _
+    rw [binarizeGrammar_build]
+    rw [hk] at hfc ⊢
+    exact hfc
+  · rw [hco, chainR_lins, chainR_lins]
+  · exact unbinChain_chainR f' l' (f'.length - 3) (total R1) (by omega) (by omega) (hw h3')
+
+set_option linter.unusedVariables false in
+/-- rules of rank <= 2 are kept as they are (their count is added to the entry); holds for every grammar -/
+theorem small_rule_kept (r : Reordering) (g : Grammar) (h : GrammarOK r g) (f : Func) (l : Lin) (c : Nat)
+    (he : (f, l, c) ∈ g.rules) (hs : f.length ≤ 3) :
+    let (f', l') := reorder r f l; gramCount (binarizeGrammar r none g) f' l' .default ≥ c := by
+  show gramCount (binarizeGrammar r none g) (reorder r f l).1 (reorder r f l).2 .default ≥ c
+  rw [binarizeGrammar_build]
+  have hmem : ((reorder r f l).1, (reorder r f l).2, c) ∈ reordered r g := List.mem_map.2 ⟨(f, l, c), he, rfl⟩
+  exact small_kept (reordered r g) _ hmem (reorder_length_le r f l hs)
+
+/-! ### concrete instances -/
+
+/-- S -> A B C D (fan-outs 2 1 2 1, left-hand side 2), S -> A B C D continuous (twice the same function, another
+    linearization), A -> B C -/
+def exF : Func := [['S'], ['A'], ['B'], ['C'], ['D']]
+def exL1 : Lin := [[(0, 0), (2, 0), (1, 0)], [(3, 0), (0, 1), (2, 1)]]
+def exL2 : Lin := [[(0, 0), (1, 0), (2, 0), (3, 0)]]
+def exG : Grammar :=
+  [(exF, [(exL1, [(.ctx [['S', '2']], 3)]), (exL2, [(.ctx [['S', '1']], 1), (.default, 3)])]),
+   ([['A'], ['B'], ['C']], [([[(0, 0), (1, 0)]], [(.ctx [['A', '1']], 2)])])]
+
+theorem exG_ok_none : GrammarOK .none exG := by decide +kernel
+theorem exG_ok_optimal : GrammarOK .optimal exG := by decide +kernel
+
+example : unbinOK .none exG (binarizeGrammar .none none exG) = true := unbinOK_binarize _ _ exG_ok_none
+example : unbinOK .optimal exG (binarizeGrammar .optimal none exG) = true := unbinOK_binarize _ _ exG_ok_optimal
+example : ((binarizeGrammar .none none exG).rules.filter fun (f, _, _) => f.head? = some (uniqueLabel 3)).length ≤ 1 :=
+  binSyms_unique _ _ exG_ok_none _ (isBinSym_uniqueLabel 3)
+example : gramCount (binarizeGrammar .none none exG) [['A'], ['B'], ['C']] [[(0, 0), (1, 0)]] .default ≥ 2 :=
+  small_rule_kept .none exG exG_ok_none [['A'], ['B'], ['C']] [[(0, 0), (1, 0)]] 2 (by decide +kernel) (by decide)
+example : ∃ s : Nat, followChain (binarizeGrammar .none none exG) (binarizeGrammar .none none exG).rules.length
+      [['S'], ['A'], uniqueLabel (s + 1)] (topLin exL2) = chainR exF 2 1 ['S'] exL2 s := by
+  obtain ⟨s, _, h, _⟩ := followChain_top .none exG exG_ok_none exF exL2 4 (by decide +kernel) (by decide)
+  exact ⟨s, h⟩
+/-- a grammar outside `GrammarOK` (the same entry twice, a rule of rank 1 with a deleting linearization) that the
+    weaker hypotheses still cover -/
+def exG2 : Grammar := [(exF, [(exL1, [(.default, 2)])]), ([['X'], ['Y']], [([], [(.default, 1)])]), (exF, [(exL1, [(.default, 5)])])]
+example : unbinOK .optimal exG2 (binarizeGrammar .optimal none exG2) = true :=
+  unbinOK_binarize_min _ _ (by decide +kernel)
+
+/-! ### the hypotheses cannot simply be dropped -/
+
+/-- an original symbol that coincides with an issued label (`@1X`): the chain of the second rule is continued
+    into the first rule -/
+def exBad1 : Grammar :=
+  [([['S'], ['A'], uniqueLabel 1], [([[(0, 0), (1, 0)]], [(.default, 1)])]), (exF, [(exL1, [(.default, 3)])])]
+example : unbinOK .none exBad1 (binarizeGrammar .none none exBad1) = false := by decide +kernel
+
+/-- a rule of rank 4 whose linearization is not ordered (second variable of element 0 before the first) -/
+def exBad2 : Grammar := [(exF, [([[(0, 1), (1, 0), (0, 0), (2, 0), (3, 0)]], [(.default, 1)])])]
+example : unbinOK .none exBad2 (binarizeGrammar .none none exBad2) = false := by decide +kernel
 
 end TT.Props.C07More
